@@ -181,6 +181,50 @@ func batchScenario(maxLen int) *explore.Scenario {
 	}}
 }
 
+// ---- (a'') one Deduplicator, several wrappings ---------------------------------------------------------------
+
+// The same *Deduplicator wraps two handlers and a publisher (router.AddMiddleware(d.Middleware) does the first for
+// every handler): a key let through by one wrapping is known to the others. (With the nil receiver every wrapping
+// builds its own defaults, so nothing is shared there and nothing is required.)
+func sharedScenario() *explore.Scenario {
+	return &explore.Scenario{Name: "one-deduplicator-several-wrappings", C: -1, DataOnly: true, Body: func() {
+		cfg := vs.Choose(2, 0, "configuration") // explicit | zero-value
+		d := dedupFor(cfg)
+		count := 0
+		h1 := d.Middleware(func(m *message.Message) ([]*message.Message, error) { count++; return nil, nil })
+		h2 := d.Middleware(func(m *message.Message) ([]*message.Message, error) { count++; return nil, nil })
+		inner := hx.NewScriptPub("inner")
+		dec, err := d.PublisherDecorator()(inner)
+		if err != nil {
+			vs.Fail("setup", "%v", err)
+			return
+		}
+		order := vs.Choose(3, 0, "which wrapping sees the key first")
+		send := func(k int) {
+			m := message.NewMessage(fmt.Sprintf("u%d", k), []byte("same payload"))
+			switch (order + k) % 3 {
+			case 0:
+				h1(m)
+			case 1:
+				h2(m)
+			default:
+				dec.Publish("t", m)
+			}
+		}
+		for k := 0; k < 3; k++ {
+			send(k)
+		}
+		through := count
+		for _, c := range inner.Snapshot() {
+			through += len(c.Msgs)
+		}
+		if through != 1 {
+			vs.Fail("exactly-one-per-key", "one Deduplicator (%s configuration) wrapping two handlers and a publisher: the same key got through %d times", configurations[cfg], through)
+		}
+		vs.Note("cfg=%s order=%d through=%d", configurations[cfg], order, through)
+	}}
+}
+
 // ---- (b) window ------------------------------------------------------------------------------------------
 
 var deltas = []time.Duration{0, window / 2, window - time.Millisecond, window + time.Millisecond, window*3/2 - time.Millisecond,
@@ -325,6 +369,7 @@ func init() {
 		add(reg.Thorough, 40, func(t reg.Tier) *explore.Scenario { return concScenario([]string{"A", "A", "B", "B"}, dec, 2, true) })
 	}
 	add(reg.Quick, 5, func(t reg.Tier) *explore.Scenario { return batchScenario(3) })
+	add(reg.Quick, 2, func(t reg.Tier) *explore.Scenario { return sharedScenario() })
 	add(reg.Thorough, 20, func(t reg.Tier) *explore.Scenario { return batchScenario(4) })
 	add(reg.Quick, 5, func(t reg.Tier) *explore.Scenario { return windowScenario(vs.Quiescent, 0) })
 	add(reg.Quick, 20, func(t reg.Tier) *explore.Scenario {
